@@ -31,6 +31,7 @@ pub const FAMILIES: &[(&str, &[&str])] = &[
                 "<div>", "</div>", "<table>", "<td>", "x", "<keygen>", "</select>", "</button>", "<template>", "</template>", "<input form=f>", "<b>", "</b>", "<p>"]),
     ("skeleton", &["<!DOCTYPE html>", "<!--c-->", "<html>", "<head>", "</head>", "<body>", "</body>", "</html>", "<frameset>", "</frameset>", "<noframes>", "x",
                    " ", "<p>", "<!DOCTYPE x>", "<title>", "<template>", "<table>", "</noframes>", "<frame>", "\n", "<html a=b>"]),
+    ("ruby", &["<ruby>", "<rb>", "<rt>", "<rtc>", "<rp>", "x", "</ruby>", "<span>", "</rtc>", "</rt>", "<div>", "<p>", "</rb>", "<table>"]),
     ("aaa", &["<a>", "<b>", "<p>", "<div>", "</a>", "</b>", "</p>", "x", "<table>", "<td>", "<nobr>", "<button>", "</div>", "<i>", "</i>", "<li>",
               "<svg>", "<mi>", "<applet>", "<template>", "</table>", "<search>", "<span>", "</span>", "<math>", "<desc>", "<annotation-xml>", "</nobr>"]),
     ("ark", &["<b>", "<p>", "</p>", "x", "<b id=q>", "</b>", "<div>", "<b id=q class=r>", "<b class=r id=q>", "<i>", "<td>", "<table>"]),
@@ -402,6 +403,27 @@ pub fn main(args: &Args) {
                 inputs.push(format!("{}</ul>x", "<ul><li><p>".repeat(n)));
                 inputs.push(format!("<table>{}x</table>y", "<tr><td><table>".repeat(n)));
                 inputs.push(format!("{}x{}", "<template>".repeat(n), "</template>".repeat(n / 2)));
+            }
+            // template insertion-mode stack: nested templates whose modes differ, a reset that lands on a template
+            // (end of a table / select / inner template), then a token the modes treat differently
+            let setters = ["<tr>", "<td>", "<col>", "<tbody>", "<caption>", "<div>", "x", ""];
+            let resets = ["<table></table>", "<template></template>", "<table><tr></table>", "</template>", "<select></select>"];
+            let probes = ["<tr>", "<td>", "<col>", "<caption>", "<div>", "x", "<tbody>", "</template>y"];
+            for m1 in setters {
+                for m2 in setters {
+                    for rs in resets {
+                        for pr in probes {
+                            inputs.push(format!("<template>{}<template>{}{}{}", m1, m2, rs, pr));
+                        }
+                    }
+                }
+            }
+            for m1 in setters {
+                for m2 in setters {
+                    for m3 in ["<tr>", "<col>", "<div>"] {
+                        inputs.push(format!("<template>{}<template>{}<template>{}</template><td>z", m1, m2, m3));
+                    }
+                }
             }
             for (i, inp) in inputs.iter().enumerate() {
                 run(base_case(inp), &mut out, &mut cr);
